@@ -231,7 +231,7 @@ def gen_cases(ctx, quick):
 
 
 def build(ctx):
-    binary, log = ctx.build_harness("c06_pca.cpp", extra=sp.header_flag())
+    binary, log = ctx.build_harness("c06_pca.cpp", name=sp.harness_name("c06_pca"), extra=sp.header_flag())
     if not binary:
         ctx.broken("harness-build", "harness c06_pca.cpp", "harness does not compile against /repo: " + log[-800:])
     return binary
